@@ -132,7 +132,10 @@ def shard(ctx):
     for t in range(n):
         doc = gen.gen_doc(rng)
         docs = json.dumps(doc)
+        o.interp = t % 3 == 0          # every third program may take keys from variables (`a.%k`)
         f = gen.gen_file(rng, doc, o)
+        if any(p_[0] == "varkey" for p_ in _all_parts(f)):
+            ctx.res.counts["programs_with_key_interpolation"] += 1
         r = judge_file(ctx, f, doc, docs, "random")
         if r in (None, "agree"):
             if r == "agree":
@@ -152,6 +155,11 @@ def shard(ctx):
             ctx.violation("random:missing-evaluation-error", "documented semantics is undefined here (error expected: %s) but the tool reports %s\n%s--- doc %s" % (a, b, text, docs[:400]), case)
         if len(ctx.res.samples) < 1:
             ctx.sample({"rules": text[:500], "doc": doc})
+
+
+def _all_parts(f):
+    s = json.dumps(f)
+    return [["varkey"]] if '["varkey"' in s else []
 
 
 def flush(ctx, items, di):
